@@ -21,9 +21,17 @@
    between consecutive Handle steps - which is a behaviour of this machine with finer chunks.
 
    THEOREM (checked by TLC as invariants): whatever the interleaving of streams and the split of
-   bytes into calls,  the traces handed to the collector = Traces(handled events)  (module
-   H2TraceDecl), each exactly once; the HPACK decoders stay in step with the encoders; every byte
-   offered to a call is passed through (transparency), also after the tracer has given up. *)
+   bytes into calls,  (Reassembly) the frames handled in a direction are exactly the frames whose
+   last byte has passed, in order;  (Agrees) the traces handed to the collector = Traces(handled
+   events)  (module H2TraceDecl), each exactly once;  (NeverBroken, HpackInSync) the tracer never
+   gives up on well-formed traffic and its HPACK decoders stay in step with the encoders;
+   (Transparent) every byte offered to a call is passed through, whatever the tracer thinks;
+   (EachNamedStreamOnce) at the end of the connection every stream that carried a test name has
+   its one trace, or was refused and retried;  (HeldBackIsReleased, under fairness of the timer)
+   a held-back trace does not stay held back.
+   Consequence used by the replay: the traces depend on the ORDER in which frames are completed
+   only, so cutting a call into consecutive calls of the same direction changes nothing - the Go
+   harness does that at arbitrary byte offsets on top of the chunkings in units generated here. *)
 EXTENDS H2TraceDecl, TLC
 
 CONSTANTS Sides,        \* subset of {"client", "server"}
